@@ -398,6 +398,8 @@ func (s *Session) Run() (err error) {
 
 		switch s.currentState() {
 		case WaitingLogon:
+			// senders read the settings under s.mu
+			s.mu.Lock()
 			s.LogonSettings = &LogonSettings{
 				HeartBtInt:      incomingLogon.HeartBtInt(),
 				EncryptMethod:   incomingLogon.EncryptMethod(),
@@ -414,6 +416,7 @@ func (s *Session) Run() (err error) {
 			if s.side == sideAcceptor {
 				s.LogonSettings.TargetCompID, s.LogonSettings.SenderCompID = s.LogonSettings.SenderCompID, s.LogonSettings.TargetCompID
 			}
+			s.mu.Unlock()
 
 			if ok, tag, reasonCode := s.checkLogonParams(incomingLogon); !ok {
 				s.sendWithErrorCheck(s.MakeReject(reasonCode, tag, incomingLogon.HeaderBuilder().MsgSeqNum()))
@@ -754,7 +757,11 @@ func (s *Session) SetUnmarshaller(unmarshaller Unmarshaller) {
 }
 
 func (s *Session) Stop() (err error) {
-	delayTimer := time.AfterFunc(s.LogonSettings.CloseTimeout, func() {
+	s.mu.Lock()
+	closeTimeout := s.LogonSettings.CloseTimeout
+	s.mu.Unlock()
+
+	delayTimer := time.AfterFunc(closeTimeout, func() {
 		s.cancel()
 	})
 
